@@ -9,6 +9,6 @@ def exponential(a: float) -> callable:
     """
 
     def p(k: int) -> float:
-        return (1 - np.exp(-a)) * np.exp(-a * k)
+        return (1 - np.exp(-a)) * np.exp(-a * (k + 0.0))
 
     return p
